@@ -421,3 +421,101 @@ Lemma expu_parts a w : a ^ 2 + w ^ 2 <> 0 ->
   (a / (a ^ 2 + w ^ 2)) * a - (- w / (a ^ 2 + w ^ 2)) * w = 1 /\
   (a / (a ^ 2 + w ^ 2)) * w + (- w / (a ^ 2 + w ^ 2)) * a = 0.
 Proof. intros H. split; field; exact H. Qed.
+
+(* ---- two-sided exponential e^{-a|t|}, a > 0 ---------------------------------------- *)
+Definition twoexpR (a t : R) : R := exp (- a * Rabs t).
+
+Lemma FA_lim_minus (h : R -> R) (l : R) : is_lim h p_infty l -> is_lim (fun t => h (- t)) m_infty l.
+Proof.
+  intros H. apply (is_lim_comp h (fun t => - t) m_infty l p_infty H).
+  - replace p_infty with (Rbar_opp m_infty) by reflexivity. apply is_lim_opp. apply is_lim_id.
+  - exists 0. intros x _ Hc. discriminate.
+Qed.
+Lemma FA_lim_exp_bounded_m a (g : R -> R) (M : R) : 0 < a -> (forall t, Rabs (g t) <= M) ->
+  is_lim (fun t => exp (a * t) * g t) m_infty 0.
+Proof.
+  intros Ha Hb.
+  pose proof (FA_lim_minus _ _ (FA_lim_exp_bounded a (fun t => g (- t)) M Ha (fun t => Hb (- t)))) as H.
+  apply (is_lim_ext (fun t => exp (- a * - t) * g (- - t))); [|exact H].
+  intros t. replace (- a * - t) with (a * t) by ring. replace (- - t) with t by ring. reflexivity.
+Qed.
+Lemma FA_gen_antideriv_left (b : R) (g F : R -> R) (l : R) :
+  (forall t, is_derive F t (g t)) -> (forall t, continuous g t) -> is_lim F m_infty l ->
+  is_RInt_gen g (Rbar_locally m_infty) (at_point b) (F b - l).
+Proof.
+  intros HD HC HL.
+  apply (is_RInt_gen_ext (Derive F)).
+  { apply filter_forall. intros [x y] z _. apply is_derive_unique. apply HD. }
+  apply is_RInt_gen_Derive.
+  - apply filter_forall. intros [x y] z _. exists (g z). apply HD.
+  - apply filter_forall. intros [x y] z _.
+    apply (continuous_ext g). { intros t. symmetry. apply is_derive_unique. apply HD. } apply HC.
+  - exact HL.
+  - intros P HP. unfold filtermap, at_point. apply locally_singleton in HP. exact HP.
+Qed.
+Lemma FA_gen_ext_left (b : R) (g h : R -> R) (l : R) : (forall t, t < b -> g t = h t) ->
+  is_RInt_gen g (Rbar_locally m_infty) (at_point b) l -> is_RInt_gen h (Rbar_locally m_infty) (at_point b) l.
+Proof.
+  intros E. apply is_RInt_gen_ext.
+  exists (fun x => x < b) (fun y => y = b).
+  - exists b. intros x Hx; exact Hx.
+  - reflexivity.
+  - intros x y Hx -> t. simpl. rewrite Rmax_right by lra. intros [_ Ht]. apply E. exact Ht.
+Qed.
+
+Theorem fourier_twoexp_re a f : 0 < a -> FTre (twoexpR a) f (2 * a / (a ^ 2 + (2 * PI * f) ^ 2)).
+Proof.
+  intros Ha. unfold FTre. set (w := 2 * PI * f).
+  assert (Hd : a ^ 2 + w ^ 2 <> 0) by nra.
+  eapply (FA_gen_chasles _ 0 (a / (a ^ 2 + w ^ 2)) (a / (a ^ 2 + w ^ 2))); [ | | field; exact Hd].
+  - apply (FA_gen_ext_left 0 (fun t => exp (a * t) * cos (w * t))).
+    { intros t Ht. unfold twoexpR. rewrite Rabs_left by lra. replace (- a * - t) with (a * t) by ring. reflexivity. }
+    pose (F := fun t => exp (a * t) * ((a / (a ^ 2 + w ^ 2)) * cos (w * t) + (w / (a ^ 2 + w ^ 2)) * sin (w * t))).
+    replace (a / (a ^ 2 + w ^ 2)) with (F 0 - 0).
+    2:{ unfold F. rewrite !Rmult_0_r, exp_0, cos_0, sin_0. field. exact Hd. }
+    apply (FA_gen_antideriv_left 0 _ F 0).
+    + intros t. unfold F. auto_derive; [exact I|]. field. nra.
+    + intros t. apply (ex_derive_continuous (fun t => exp (a * t) * cos (w * t))). auto_derive. exact I.
+    + unfold F. apply (FA_lim_exp_bounded_m a _ (Rabs (a / (a ^ 2 + w ^ 2)) + Rabs (w / (a ^ 2 + w ^ 2))) Ha).
+      intros t. apply FA_lincomb_bound.
+  - apply (FA_gen_ext_right 0 (fun t => expuR a t * cos (w * t))).
+    { intros t Ht. unfold twoexpR, expuR. destruct (Rlt_dec t 0); [lra|]. rewrite Rabs_right by lra. reflexivity. }
+    pose proof (fourier_expu_re a f Ha) as H. unfold FTre in H. fold w in H.
+    (* the right half of the one-sided result *)
+    apply (FA_gen_ext_right 0 (fun t => exp (- a * t) * cos (w * t))).
+    { intros t Ht. unfold expuR. destruct (Rlt_dec t 0); [lra | reflexivity]. }
+    pose (F := fun t => exp (- a * t) * ((- a / (a ^ 2 + w ^ 2)) * cos (w * t) + (w / (a ^ 2 + w ^ 2)) * sin (w * t))).
+    replace (a / (a ^ 2 + w ^ 2)) with (0 - F 0).
+    2:{ unfold F. rewrite !Rmult_0_r, exp_0, cos_0, sin_0. field. exact Hd. }
+    apply (FA_gen_antideriv 0 _ F 0).
+    + intros t. unfold F. auto_derive; [exact I|]. field. nra.
+    + intros t. apply (ex_derive_continuous (fun t => exp (- a * t) * cos (w * t))). auto_derive. exact I.
+    + unfold F. apply (FA_lim_exp_bounded a _ (Rabs (- a / (a ^ 2 + w ^ 2)) + Rabs (w / (a ^ 2 + w ^ 2))) Ha).
+      intros t. apply FA_lincomb_bound.
+Qed.
+Theorem fourier_twoexp_im a f : 0 < a -> FTim (twoexpR a) f 0.
+Proof.
+  intros Ha. unfold FTim. set (w := 2 * PI * f).
+  assert (Hd : a ^ 2 + w ^ 2 <> 0) by nra.
+  eapply (FA_gen_chasles _ 0 (w / (a ^ 2 + w ^ 2)) (- w / (a ^ 2 + w ^ 2))); [ | | field; exact Hd].
+  - apply (FA_gen_ext_left 0 (fun t => - (exp (a * t) * sin (w * t)))).
+    { intros t Ht. unfold twoexpR. rewrite Rabs_left by lra. replace (- a * - t) with (a * t) by ring. reflexivity. }
+    pose (F := fun t => exp (a * t) * ((w / (a ^ 2 + w ^ 2)) * cos (w * t) + (- a / (a ^ 2 + w ^ 2)) * sin (w * t))).
+    replace (w / (a ^ 2 + w ^ 2)) with (F 0 - 0).
+    2:{ unfold F. rewrite !Rmult_0_r, exp_0, cos_0, sin_0. field. exact Hd. }
+    apply (FA_gen_antideriv_left 0 _ F 0).
+    + intros t. unfold F. auto_derive; [exact I|]. field. nra.
+    + intros t. apply (ex_derive_continuous (fun t => - (exp (a * t) * sin (w * t)))). auto_derive. exact I.
+    + unfold F. apply (FA_lim_exp_bounded_m a _ (Rabs (w / (a ^ 2 + w ^ 2)) + Rabs (- a / (a ^ 2 + w ^ 2))) Ha).
+      intros t. apply FA_lincomb_bound.
+  - apply (FA_gen_ext_right 0 (fun t => - (exp (- a * t) * sin (w * t)))).
+    { intros t Ht. unfold twoexpR. rewrite Rabs_right by lra. reflexivity. }
+    pose (F := fun t => exp (- a * t) * ((w / (a ^ 2 + w ^ 2)) * cos (w * t) + (a / (a ^ 2 + w ^ 2)) * sin (w * t))).
+    replace (- w / (a ^ 2 + w ^ 2)) with (0 - F 0).
+    2:{ unfold F. rewrite !Rmult_0_r, exp_0, cos_0, sin_0. field. exact Hd. }
+    apply (FA_gen_antideriv 0 _ F 0).
+    + intros t. unfold F. auto_derive; [exact I|]. field. nra.
+    + intros t. apply (ex_derive_continuous (fun t => - (exp (- a * t) * sin (w * t)))). auto_derive. exact I.
+    + unfold F. apply (FA_lim_exp_bounded a _ (Rabs (w / (a ^ 2 + w ^ 2)) + Rabs (a / (a ^ 2 + w ^ 2))) Ha).
+      intros t. apply FA_lincomb_bound.
+Qed.
